@@ -809,6 +809,8 @@ class Interp:
         """store into a fixed-size array: integer indices, or paired ranges (diagonal)"""
         seqs = []
         for k in key:
+            if k is Ellipsis or k is None:
+                continue
             if isinstance(k, tuple) and len(k) == 2 and k[0] == "range":
                 a = [to_py(x) for x in k[1]]
                 if not all(isinstance(x, int) for x in a):
